@@ -5,7 +5,7 @@
    The sweep loop of Jacobi (), its thresholds and the binary64 accuracy clauses are
    covered by the always-on oracle jacobi_classes_plain, not by a theorem. *)
 From Coq Require Import Reals Lra List.
-From Epsic Require Import Scalar Gen_C10 Tie_C10 Tie_C10_q Tie_C10_r Tie_C10_c00 Tie_C10_c01 Tie_C10_c011 Tie_C10_c1.
+From Epsic Require Import Scalar Gen_C10 Tie_C10 Tie_C10_q Tie_C10_r Tie_C10_r3 Tie_C10_c00 Tie_C10_c01 Tie_C10_c011 Tie_C10_c1.
 Import ListNotations.
 Local Open Scope R_scope.
 
@@ -30,6 +30,20 @@ Proof.
   apply Forall_cons; [ exact (tie_jrot2_p1 p q x) | apply Forall_nil ].
 Qed.
 Print Assumptions C10_real_jacobi_rotation.
+
+(* the same rotation inside a symmetric 3x3 matrix [[p,x,y],[x,q,z],[y,z,r]]: a similarity by an orthogonal v, the
+   (0,1) element annihilated, trace preserved, and the other off-diagonal elements only rotated among themselves,
+   a02'^2 + a12'^2 = y^2 + z^2 -- so the off-diagonal norm decreases by exactly 2 x^2 (the quantity whose decrease
+   makes the cyclic sweeps converge) *)
+Theorem C10_real_jacobi_rotation_3x3 p q r x y z :
+  Forall (fun c : Prop * list R => fst c -> jrot3_spec p q r x y z (snd c)) (jrot3_cases (OO:=ROps) p q r x y z)
+  /\ Exists (fun c : Prop * list R => fst c) (jrot3_cases (OO:=ROps) p q r x y z).
+Proof.
+  split; [ | apply jrot3_paths_total ].
+  unfold jrot3_cases. apply Forall_cons; [ exact (tie_jrot3_p00 p q r x y z) | ]. apply Forall_cons; [ exact (tie_jrot3_p01 p q r x y z) | ].
+  apply Forall_cons; [ exact (tie_jrot3_p1 p q r x y z) | apply Forall_nil ].
+Qed.
+Print Assumptions C10_real_jacobi_rotation_3x3.
 
 (* one complex Jacobi rotation of [[p, x+iy], [x-iy, q]], derived from the eigen-rotation of (0, (p-q)/2, x, -y) *)
 Theorem C10_complex_jacobi_rotation p q x y :
